@@ -91,32 +91,47 @@ def translator_validation(h, mir, native, seed, n_cases, log):
     if hasattr(h, 'setup_machine'):
         h.setup_machine(m, None, {})
     done = 0
+    allow_forks = getattr(h, 'VALIDATION_ALLOW_FORKS', False)
     for shape, inputs in cases:
-        stats = Stats()
-        out = {}
+        outs = []
+        panics = []
 
         def hrun(ctx):
             ctx.concrete = inputs
-            ctx.outputs = out
-            h.run(ctx, shape, {'concrete': True})
-        ctx, (kind, payload) = m.run_path(hrun, [], stats)
-        nat = h.native_outputs(native, shape, inputs)
-        if kind == 'violation' and payload.what.startswith('panic'):
-            mine = {'panic': True}
-        else:
-            mine = out
-        cmp_keys = [k for k in nat if k in mine or 'panic' in nat]
-        if ('panic' in nat) != ('panic' in mine):
-            raise Unsupported('translator validation: panic behaviour differs on %r %r: native %r, MIRSE %r (%s)'
-                              % (shape, inputs, nat, mine, payload.what if payload else ''))
-        for k in nat:
-            if k == 'panic':
+            ctx.outputs = {}
+            try:
+                h.run(ctx, shape, {'concrete': True})
+            finally:
+                ctx.final_outputs = ctx.outputs
+        work = [[]]
+        npaths = 0
+        while work:
+            prefix = work.pop()
+            stats = Stats()
+            ctx, (kind, payload) = m.run_path(hrun, prefix, stats)
+            work.extend(ctx.pending)
+            npaths += 1
+            if npaths > 500:
+                raise Unsupported('translator validation: too many paths for a concrete input')
+            if kind == 'infeasible':
                 continue
-            if k in mine and mine[k] != nat[k]:
-                raise Unsupported('translator validation: output %s differs on %r %r: native %r, MIRSE %r'
-                                  % (k, shape, inputs, nat[k], mine[k]))
-        if ctx.pending:
+            if kind == 'violation' and payload.what.startswith('panic'):
+                panics.append(payload.what)
+            else:
+                outs.append(ctx.final_outputs)
+        if npaths > 1 and not allow_forks:
             raise Unsupported('translator validation: concrete run forked on %r %r' % (shape, inputs))
+        nat = h.native_outputs(native, shape, inputs)
+        if 'panic' in nat or 'timeout' in nat:
+            if not panics:
+                raise Unsupported('translator validation: native run fails (%r) but no MIRSE path panics on %r %r'
+                                  % (nat, shape, inputs))
+        else:
+            def agrees(mine):
+                return all(mine.get(k) == v for k, v in nat.items() if k in mine)
+            if not any(agrees(o) for o in outs):
+                raise Unsupported('translator validation: native outputs %r not produced by any MIRSE path on %r %r; '
+                                  'MIRSE: %r' % (nat, shape, inputs, outs[:3]))
         done += 1
     return done
 
